@@ -47,6 +47,7 @@ Asg(x, addr, steps, e) == [k |-> "A", r |-> Plain(x, addr, steps), e |-> e, n |-
 SetV(x, e) == Asg(x, 0, <<>>, e)
 Pr(e) == [k |-> "P", e |-> e, n |-> ""]
 PrAll(es) == [k |-> "PP", es |-> es, n |-> ""]
+PrText(parts) == [k |-> "T", parts |-> parts, n |-> ""]
 CallI(f, args, d) == [k |-> "CALL", f |-> f, args |-> args, d |-> d, n |-> ""]
 IO_(c) == [k |-> "IO", c |-> c, n |-> ""]
 EIO_(c) == [k |-> "EIO", c |-> c, n |-> ""]
